@@ -137,19 +137,28 @@ pub fn run(args: &[String]) {
                                                                                   _ => vec![("C".to_string(), 0, 100000), ("H".to_string(), 0, 150000), ("O".to_string(), 0, 30000)] },
                                          _ => { let mut e = gen_comp(&mut rng, &faithful, 4, 400); if e.iter().all(|x| x.2 == 0) { e[0].2 = 2; } e } };
                 let reqs: Vec<Req> = match i % 3 {
-                    0 => vec![Req::I32(-3), Req::I32(-1), Req::I32(0), Req::I32(1), Req::I32(2), Req::I32(3), Req::I32(rng.range(4, 320) as i32),
-                              Req::I32(i32::MAX), Req::I32(i32::MIN), Req::Usize(0), Req::Usize(1), Req::Usize(rng.below(320) as usize), Req::Opt(None), Req::Opt(Some(1)),
-                              // on the long-lived generator: each of these needs exactly two more terms than the one before it
-                              Req::I32(3), Req::I32(5), Req::I32(7), Req::I32(9)],
+                    0 => vec![// on the per-composition generator (fresh for every composition): each of these needs exactly two more terms than the
+                              // one before it, then one more, then fewer
+                              Req::I32(3), Req::I32(5), Req::I32(7), Req::I32(9), Req::I32(10), Req::I32(4),
+                              Req::I32(-3), Req::I32(-1), Req::I32(0), Req::I32(1), Req::I32(2), Req::I32(3), Req::I32(rng.range(4, 320) as i32),
+                              Req::I32(i32::MAX), Req::I32(i32::MIN), Req::Usize(0), Req::Usize(1), Req::Usize(rng.below(320) as usize), Req::Opt(None), Req::Opt(Some(1))],
                     1 => (0..8).map(|_| Req::I32(rng.range(-3, 320) as i32)).collect(),
                     _ => vec![Req::F32(0.0), Req::F32(1.0), Req::F32(rng.below(101) as f32 / 100.0), Req::F32(0.9999), Req::F32(0.5)],
                 };
                 // (huge compositions: short fixed requests only -- the exact oracle's cost grows with order^2)
                 let reqs = if i % 10 == 9 { vec![Req::I32(1), Req::I32(2), Req::I32(6), Req::Usize(12), Req::Opt(Some(3))] } else { reqs };
+                // a second generator object, fresh for every composition: it sees exactly this composition's request sequence
+                let mut per_comp = BafflingRecursiveIsotopicPatternGenerator::new();
                 for r in reqs {
                     let charge = *rng.pick(&[0, 0, 1, 2, -1]);
                     let as_map = rng.chance(1, 4);
                     let mut rec = one_case(id, &ents, as_map, &r, charge, PROTON, "c09");
+                    {
+                        let c = build(&ents, as_map);
+                        let spec = r.spec();
+                        let g = guarded(|| per_comp.isotopic_variants(c, spec, charge, PROTON));
+                        rec["gen2_out"] = match g { Ok(p) => peaks_json(&p), Err(_) => { per_comp = BafflingRecursiveIsotopicPatternGenerator::new(); json!("panic") } };
+                    }
                     {
                         let c = build(&ents, as_map);
                         let spec = r.spec();
